@@ -16,6 +16,7 @@ CONSTANTS
   MaxSteps = 14
   Sample = FALSE
   Variant = "base"
+  SplitAdd = "off"
 INVARIANT QuotaExact
 INVARIANT CostExactOrExport
 INVARIANT NeverLockedOut
